@@ -16,6 +16,7 @@ asked list_cases / list_sources / get_case / get_cases and every answer is compa
 import json
 import os
 import random
+from bisect import bisect_right
 from fnmatch import fnmatchcase
 
 import numpy as np
@@ -40,7 +41,8 @@ ASSUMPTIONS = [
     'include/exclude semantics: only variables for which every plausible name (absolute, relative, promoted) '
     'agrees on matching are judged; outputs that are sources of recorded inputs are not judged absent',
     'driver derivatives are compared with the derivative record of the same coordinate (the reader\'s '
-    'documented association)',
+    'documented association) written by the same run_driver call; a case that displays exactly the record another '
+    'run stored under the same repeated coordinate is reported under repeated-run:coordinate-collision',
     'the iteration coordinate format rank0:name|count|... is taken as documented',
     'a Problem case name the user passes twice to Problem.record() does not identify a case (documented: "Name used '
     'to identify this Problem case"); look-ups of such cases by name/index and get_cases("problem") are not judged, '
@@ -185,10 +187,11 @@ def execute(spec):
     from omv.kit.recmon import RecMonitor
     mon = RecMonitor().install()
     built = None
+    marks = []
     try:
         built = G.build(spec)
         mon.built = built
-        G.run_sequence(built)
+        G.run_sequence(built, on_step=lambda i, op: marks.append(len(mon.events)))
         built['prob'].cleanup()
         return mon.events, built, None
     except Exception as e:   # noqa
@@ -196,6 +199,9 @@ def execute(spec):
         return mon.events, built, (e, traceback.format_exc()[-1500:])
     finally:
         mon.uninstall()
+        # e['step'] = index of the run_model/run_driver/record call of the sequence that produced the event
+        for e in mon.events:
+            e['step'] = bisect_right(marks, e['seq'])
 
 
 def runtime_vars(built):
@@ -602,10 +608,29 @@ def check_case(c, e, devs, spec, V, voi, scaled, opts, J, values_equal, name):
         check_derivs(c, tot, J, 'problem', name)
     elif e['kind'] == 'driver':
         same = [d for d in devs if expected_name(d) == name]
+        # the derivative record that belongs to this case is the one written by the same run_driver call; records of
+        # ANOTHER run filed under the same (repeated) coordinate are not this case's derivatives
+        own = [d for d in same if d['step'] == e['step']]
+        other = [d for d in same if d['step'] != e['step']]
         if c.derivatives is not None and not same:
             J.viol('derivatives:driver:from-nowhere', 'case %s shows derivatives but none were recorded for it' % name)
-        if same:
-            d = same[0]
+        elif other and any(_shows(c, d) for d in other) and not (own and _shows(c, own[0])):
+            # the collision mechanism: case row and derivative row are each fetched through the coordinate
+            # (SELECT ... FROM driver_derivatives WHERE iteration_coordinate=?), so a case of one run comes back with
+            # exactly the derivative record another run stored under the same coordinate
+            d = [d for d in other if _shows(c, d)][0]
+            dv = sorted(voi['desvar'])[0] if voi['desvar'] else None
+            J.viol(COLL + 'derivatives:driver:of-another-run',
+                   'case %s of run #%d (counter %s%s) is shown with the total derivatives that run #%d recorded under '
+                   'the same coordinate%s; its own run recorded %s for it'
+                   % (name, e['step'], c.counter,
+                      ', %s=%s' % (dv, np.asarray(e['snap']['output'].get(dv)).tolist()) if dv else '', d['step'],
+                      ' at %s=%s' % (dv, np.asarray(d['snap']['output'].get(dv)).tolist()) if dv else '',
+                      'other derivatives' if own else 'none'))
+        elif not own:
+            check_derivs(c, {}, J, 'driver', name)
+        else:
+            d = own[0]
             check_derivs(c, d['derivs'], J, 'driver', name)
             acc.count('obs:driver_derivs_compared')
             # the derivatives shown for a case must be those of the case's own design point
@@ -621,6 +646,19 @@ def check_case(c, e, devs, spec, V, voi, scaled, opts, J, values_equal, name):
                            'case %s (desvar %s=%s) is shown with total derivatives computed at %s=%s'
                            % (name, dv, x_case.tolist(), dv, x_der.tolist()))
                     break
+
+
+def _shows(c, d):
+    """True if the derivatives the case displays are exactly those of the derivative record d."""
+    from omv.kit.recmon import values_equal
+    got, want = c.derivatives, d['derivs']
+    if got is None or len(got) != len(want):
+        return False
+    try:
+        return all(values_equal(np.asarray(got[k if isinstance(k, str) else '!'.join(k)]), np.asarray(v))
+                   for k, v in want.items())
+    except Exception:  # noqa
+        return False
 
 
 def _close(a, b, ulps):
